@@ -318,6 +318,8 @@ def assign_iterable(lhs, rhs, other, ctx):
         lhs[rhs] = other
         return vy_sum(lhs, ctx=ctx)
     else:
+        # assign into a copy: the caller's list may be shared
+        lhs = lhs[:] if type(lhs) is list else deep_copy(lhs)
         lhs[rhs] = other
         return lhs
 
@@ -1280,7 +1282,7 @@ def gen_from_fn(lhs, rhs, ctx):
     def gen():
         yield from lhs
 
-        made = lhs
+        made = list(lhs)
 
         while True:
             next_item = safe_apply(rhs, *made, ctx=ctx)
